@@ -56,7 +56,7 @@ func discoverPools(c *Ctx) []*poolDef {
 			if !ok || !IsCallTo(call, "go.uber.org/zap/internal/pool.New") {
 				return
 			}
-			pd := &poolDef{name: pk.PkgPath + "." + g.Name(), recv: g.Name()}
+			pd := &poolDef{name: pk.PkgPath + "." + GN(g), recv: GN(g)}
 			if mk, ok := call.Call.Args[0].(*ssa.MakeClosure); ok {
 				pd.newFn, _ = mk.Fn.(*ssa.Function)
 			} else if f, ok := call.Call.Args[0].(*ssa.Function); ok {
@@ -69,7 +69,7 @@ func discoverPools(c *Ctx) []*poolDef {
 				}
 			}
 			pools = append(pools, pd)
-			byRecv[pk.PkgPath+"|"+g.Name()] = pd
+			byRecv[pk.PkgPath+"|"+GN(g)] = pd
 		})
 	}
 	// the buffer pool: buffer.Pool{p}, wrappers Pool.Get / Pool.put
@@ -1234,7 +1234,7 @@ func c8PoolCtorsFresh(c *Ctx, rule string) {
 					v = x.X
 					continue
 				case *ssa.Global:
-					return x.Name(), true
+					return GN(x), true
 				}
 				break
 			}
@@ -1262,7 +1262,7 @@ func c8PoolCtorsFresh(c *Ctx, rule string) {
 					shared = append(shared, "returns (from package variable "+gn+") "+Desc(rv))
 				}
 				if g, isG := Strip(rv).(*ssa.Global); isG {
-					shared = append(shared, "returns the address of package variable "+g.Name())
+					shared = append(shared, "returns the address of package variable "+GN(g))
 				}
 			}
 		}
